@@ -459,6 +459,26 @@ class Engine(object):
                 for n in walk(nd.e):
                     if n.k == 'var':
                         used.add(n.decl)
+        # a local copied into a used local is used as well (result variables
+        # of split-out helpers: `r = 10; ... exit_val = r; if(exit_val > 0)`)
+        copies = []
+        for s in walk_stmts(fn.body):
+            if s.k == 'decl' and s.var is not None and s.e is not None and strip(s.e).k == 'var':
+                copies.append((s.var.decl, strip(s.e).decl))
+        for ex in all_exprs(fn):
+            for n in walk(ex):
+                if n.k == 'bin' and n.op == '=' and strip(n.a[0]).k == 'var' and strip(n.a[1]).k == 'var':
+                    copies.append((strip(n.a[0]).decl, strip(n.a[1]).decl))
+        changed = True
+        while changed:
+            changed = False
+            for dst, src in copies:
+                if dst in used and src not in used:
+                    used.add(src)
+                    changed = True
+                if src in cand and dst not in cand:
+                    cand.add(dst)
+                    changed = True
         locs = set(fn.locals.keys()) | set(p.decl for p in fn.params)
         res = (cand & used & locs) - uthash - self.addr_taken(fn)
         res = self.rule.adjust_tracked(fn, res, locs - uthash - self.addr_taken(fn))
